@@ -228,6 +228,9 @@ func oracle(c rescorr.Case, ms *yang.Modules, errs []error, out *rescorr.GoOut) 
 	}
 }
 
+// chainDepth: longest chain of gen.LeftoverChains in the corpus (4 in the thorough tier).
+var chainDepth = 3
+
 func main() {
 	f := lib.ParseFlags()
 	if lib.IsChild() {
@@ -249,6 +252,9 @@ func main() {
 		return
 	}
 	res := lib.NewResult("C04", f)
+	if f.Thorough() {
+		chainDepth = 4
+	}
 	n := 3000
 	if f.Thorough() {
 		n = 150000
@@ -656,6 +662,22 @@ func corpusCases() []rescorr.Case {
 		}
 	}
 	seq = append(seq, barrenCorpus()...)
+	// chains of augments that only become applicable after FixChoice (gen.LeftoverChains: targets below
+	// implied cases, 2-3 links across modules in every module-name order, links that bring short-hand
+	// choice members of their own, complete chains and chains with a link missing; unsplit and with an
+	// augment-free submodule split off the target module): the stage after FixChoice retries to a
+	// fixpoint with FixChoice after every productive round, and the grafted nodes must satisfy the tree
+	// invariant like any others
+	for _, c := range gen.LeftoverChains(chainDepth) {
+		cc := mk()
+		cc.Names, cc.Texts = c.Names, c.Texts
+		seq = append(seq, cc)
+		for _, sp := range c.Splits {
+			cs := mk()
+			cs.Names, cs.Texts = sp.Names, sp.Texts
+			seq = append(seq, cs)
+		}
+	}
 	return append(seq, []rescorr.Case{
 		// files on disk: only `main` is handed over, `base` is loaded by Process from the path.  The
 		// auto-loaded module has a short-hand choice / is the target of a colliding augment / has an
